@@ -52,8 +52,59 @@ BISECT = Contract(
     extra=dict(engine=OpaqueEngine, variant="bisection-block", frame_ghosts=False,
                ghost_writeback={"last_eval": "last_eval"}, callee_contracts={"eval": EVAL},
                local_types=dict(alpha=TInt), pure_methods=("_get_x_limits",),
-               block=dict(first="alpha = -1", count=7)),
+               block=dict(first="alpha = -1", last="self.x -= this_xstep")),
     note="block contract: from `alpha = -1` to `self.x -= this_xstep`")
 
 VARIANTS = [BISECT]
 CONTRACTS = []
+
+
+# ----------------------------------------------------------------------------- the Newton-step block  (C10)
+# Statement (C10): a disabled knob is never changed and a disabled TARGET has no influence on the steps taken; between Jacobian steps
+# no knob moves by more than its max_step.  In JacobianSolver.step this is carried by ONE expression, which the block must compute:
+#
+#   xstep  ==  clip( scatter( zeros(len x),  mi,  lstsq( SVD( jac[mo, :][:, mi] ),  y[mo] ) ) )
+#       mi = func.mask_input & self.mask_from_limits        (active knobs not frozen at a limit in the previous step)
+#       mo = func.mask_output                               (active targets: rows of the Jacobian AND entries of the residual)
+#       clip = func._clip_to_max_steps applied to the FULL-length vector (max_step is matched to knobs by position)
+#
+# Everything numerical is opaque; reads are functions of their operands inside the block (no collaborator is mutated there), so the
+# code is compared with this specification TERM: renaming, temporaries and reordering of independent statements keep the term, dropping
+# a mask, clipping the compressed vector, or scattering into another vector change it.
+_f = lambda name, n: z3.Function(name, *([V] * n + [V]))
+SL_ALL = z3.Const("py_slice_all", V)
+
+
+def _spec_xstep(s):
+    func = s.self.func.t
+    x, jac, y = s.self.x.t, s.jac.t, s.y.t
+    attr = lambda nm, o: z3.Function("py_attr_" + nm, V, V)(o)
+    mi = opfn("bitand")(attr("mask_input", func), s.self.mask_from_limits.t)
+    mo = attr("mask_output", func)
+    pair = _f("py_index_pair", 2)
+    getitem = _f("py_getitem", 2)
+    sel = getitem(getitem(jac, pair(mo, SL_ALL)), pair(SL_ALL, mi))
+    svd = _f("call_SVD/1", 1)(sel)
+    newton = _f("meth_lstsq,rcond,sing_val_cutoff/4", 4)(svd, getitem(y, mo), s.rcond.t, s.sing_val_cutoff.t)
+    from pyvc.opaque_engine import int_val
+    zeros = _f("np_zeros/1", 1)(int_val(z3.Function("py_len", V, IntS)(x)))
+    scattered = _f("py_setitem", 3)(zeros, mi, newton)
+    return _f("meth__clip_to_max_steps/2", 2)(s.myf.t, scattered), svd
+
+
+TSolverS = TRec("JacobianSolver", dict(x=TV, func=TV, mask_from_limits=TV, _last_jac_svd=TV))
+NEWTON = Contract(
+    module=MJ, qualname="JacobianSolver.step", params=dict(self=TSolverS, myf=TV, jac=TV, y=TV, rcond=TV, sing_val_cutoff=TV),
+    ghost=dict(xstep=TV),
+    requires=[("myf-is-the-merit-function", lambda s: s.myf.t == s.self.func.t)],
+    ensures=[("the-step-is  clip(scatter(zeros, mi, lstsq(SVD(jac[mo, :][:, mi]), y[mo])))", lambda o, n, r: n.xstep.t == _spec_xstep(o)[0]),
+             ("the-decomposition-kept-for-the-log-is-that-of-the-masked-Jacobian", lambda o, n, r: n.self._last_jac_svd.t == _spec_xstep(o)[1])],
+    raises={"UserError": dict(when=None, post=[], modifies=("self._last_jac_svd", "xstep")),
+            "AssertionError": dict(when=None, post=[], modifies=("xstep",))},
+    modifies=("self._last_jac_svd", "xstep"), min_obligations=2,
+    extra=dict(engine=OpaqueEngine, variant="newton-step-block", frame_ghosts=False, stable_reads=True,
+               pure_methods=("lstsq", "_clip_to_max_steps", "copy"), pure_functions=("SVD",),
+               block=dict(first="xstep = np.zeros(len(self.x))", until="self.mask_from_limits[:] = True")),
+    note="block contract: from `xstep = np.zeros(len(self.x))` up to (not including) `self.mask_from_limits[:] = True`")
+
+VARIANTS += [NEWTON]
